@@ -111,6 +111,12 @@ def r_isosteric_wrapper(ctx: Ctx, model, prop="C19"):
            nontrivial_key=("iso", "representation"))
     if prop != "C19":
         return
+    # "whatever the number of temperatures": two isotherms are a complete Clausius-Clapeyron set and must be accepted
+    outs2 = I.explore(lambda I: I.call_func(fi, [list(isos[:2])], {"loading_points": Vec([S("n0"), S("n1")]), "branch": "ads"}, None))
+    ctx.ob(bool(outs2) and all(o.kind == "ok" for o in outs2),
+           Finding("C19.E-isosteric", fi.where, "isosteric_enthalpy|two-isotherms",
+                   f"isosteric_enthalpy on two isotherms: {[repr(o)[:100] for o in outs2[:2]]}; two temperatures determine the slope and must be analysed"),
+           nontrivial_key=("iso", "two"))
     ctx.ob(ok, Finding("C19.E-isosteric", fi.where, "isosteric_enthalpy|pairing",
                        f"isotherms at {temps} K (in that order): pressure columns {[str(c.items[0]) for c in cols] if cols else pr!r} are paired with "
                        f"temperatures {tl}: each column must be regressed against its own isotherm's temperature "
